@@ -2,7 +2,7 @@
 # tools/seeded_all.sh [ids...] — for each seeded change: apply to /repo, run its own check, record the verdict in
 # seeded/<id>/meta.json ("result"), undo.  Refuses to run when /repo has local changes.
 cd "$(dirname "$0")/.." || exit 2
-ids=${*:-$(ls seeded | grep -E '^C[0-9][0-9][bc]?$')}
+ids=${*:-$(ls seeded | grep -E '^C[0-9][0-9][b-z]?$')}
 git -C /repo diff --quiet || { echo "/repo has local changes; refusing"; exit 2; }
 for d in $ids; do
   p=$(echo $d | cut -c1-3)
